@@ -6,7 +6,10 @@ INVARIANT EveryOutcome
 INVARIANT CountersAgree
 INVARIANT ValidIndex
 INVARIANT SequentialEquivalence
+INVARIANT ShutdownDrains
+INVARIANT ExitOnlyAfterShutdown
 PROPERTY Termination
+PROPERTY WorkersLeave
 CHECK_DEADLOCK FALSE
 CONSTANTS
   NW <- NWv
